@@ -189,12 +189,35 @@ def _cfg_pair(tier):
     return cfg, roots
 
 
+def _cfg_suspension(tier):
+    """Several evaluations INSIDE the five-minute suspension that follows a
+    handled API error, with the bucket drained before: what the budget is
+    worth when the suspension ends."""
+    cfg = {
+        'names': [A],
+        'answers': [('ok',), ('404',)],
+        'ticks': [100, 150] if tier == 'quick' else [1, 100, 150, 900],
+        'counts': [3],
+        'max_instances': 6,
+        'delete': False,
+        'restart': False,
+        'orders': [],
+        'order_answers': [('ok',)],
+        'policies': [],
+        'full_updates': False,
+    }
+    roots = [(('mon', A, 3, None),)]
+    return cfg, roots
+
+
 def configs(ctx):
     if ctx.quick:
-        return [('single', _cfg_single('quick'), 6, 0.6),
-                ('pair', _cfg_pair('quick'), 4, 0.4)]
-    return [('single', _cfg_single('thorough'), 8, 0.6),
-            ('pair', _cfg_pair('thorough'), 5, 0.4)]
+        return [('single', _cfg_single('quick'), 6, 0.5),
+                ('pair', _cfg_pair('quick'), 4, 0.35),
+                ('suspension', _cfg_suspension('quick'), 8, 0.15)]
+    return [('single', _cfg_single('thorough'), 8, 0.5),
+            ('pair', _cfg_pair('thorough'), 5, 0.35),
+            ('suspension', _cfg_suspension('thorough'), 9, 0.15)]
 
 
 NONTRIVIAL = ['evals_with_request', 'create_requests', 'delete_requests',
